@@ -141,7 +141,7 @@ func rulesC01Round2(c *Ctx, g *CG, cone []*ssa.Function, parent map[*ssa.Functio
 		commit := CallsTo(fn, "canonicalState.Commit", "storage/mkvs.(Tree).Commit", "")
 		c.MustPrecede("C01.local", fn, commit, run, "node-local effects of a block are applied only after its state has been committed")
 		var drops []ssa.Instruction
-		for _, b := range fn.Blocks {
+		for _, b := range blocksIP(fn) {
 			for _, in := range b.Instrs {
 				if st, ok := in.(*ssa.Store); ok && strings.HasSuffix(vstr(st.Addr), ".blockCtx") && isNilConst(st.Val) {
 					drops = append(drops, in)
@@ -193,7 +193,7 @@ func resetProposalRule(c *Ctx, rule string) {
 func prepareVotesRule(c *Ctx, rule string) {
 	if fn := c.needFn(rule, "consensus/cometbft/abci.(*abciMux).PrepareProposal"); fn != nil {
 		var appends, heads []ssa.Instruction
-		for _, b := range fn.Blocks {
+		for _, b := range blocksIP(fn) {
 			for _, in := range b.Instrs {
 				if call, ok := in.(ssa.CallInstruction); ok && calleeName(call) == "builtin.append" {
 					args := allArgs(call)
